@@ -8,6 +8,7 @@ import Blots.Model.NumText
     literal <hstr>                → `(ok <bits>)` | `(err)`
     src-number <bits>             → `<hstr>`
     json-number <bits>            → `<hstr>`
+    shortest-found <bits>         → `<t|f> <t|f>`   hypothesis ShortestFound (tie up / tie even)
     display-judge <bits> <hstr>   → the exact referee, INDEPENDENT of the code model:
         `wf=<t|f> kind=<nan|inf|-inf|std|sci|none> exact=<t|f> lt1=<t|f> half=<t|f> err=<n>/<d>`
       wf     the text is a well-formed numeral (grammar below)
@@ -165,6 +166,13 @@ def handleNumText (req : List Sx) : Option String :=
   | [.atom "json-number", .atom b] =>
     match parseHex64 b with
     | some u => some (encStr (NumText.jsonNumber ⟨u⟩))
+    | none => some "bad-request"
+  | [.atom "shortest-found", .atom b] =>
+    -- the hypothesis `ShortestFound` of the C16 round-trip theorems, for both tie rules
+    match parseHex64 b with
+    | some u =>
+      let x : F64 := ⟨u⟩
+      some (boolStr ((x.shortestDigitsWith true).1 != 0) ++ " " ++ boolStr ((x.shortestDigitsWith false).1 != 0))
     | none => some "bad-request"
   | [.atom "display-judge", .atom b, .atom s] =>
     match parseHex64 b, decStr s with
